@@ -462,6 +462,7 @@ func runC19(r *core.Run) {
 	})
 	c19Constructors(r)
 	c19SignatureSweep(r)
+	c19IntegerTwins(r)
 	bd := 4
 	if !r.Quick() {
 		bd = 5
@@ -501,6 +502,8 @@ func replayC19(r *core.Run, c core.Case) {
 		}
 	case "sigsweep":
 		c19SignatureSweep(r)
+	case "inttwins":
+		c19IntegerTwins(r)
 	default:
 		c19Constructors(r)
 	}
